@@ -35,7 +35,12 @@ type clientCodec struct {
 
 // Encode request.
 func (c clientCodec) Encode(name string, args []interface{}, context *ClientContext) ([]byte, error) {
-	encoder := io.GetEncoder().Simple(c.Simple)
+	simple := c.Simple
+	if !simple && context.HasRequestHeaders() {
+		// the peer decodes in the mode this header announces: it must be the mode used
+		simple = context.RequestHeaders().GetBool("simple")
+	}
+	encoder := io.GetEncoder().Simple(simple)
 	defer io.FreeEncoder(encoder)
 	if c.Simple {
 		context.RequestHeaders().Set("simple", true)
